@@ -542,7 +542,7 @@ fn judge(ctx: &Ctx, case: &Case, lo: &mut Local) {
           }
         }
       };
-      lo.distinct.push(Ctx::hash_of(&(3u8, secs)));
+      lo.distinct.push(Ctx::hash_of(&(3u8, (secs.saturating_add(1)).div_euclid(86_400), label)));
       lo.outcome(label.to_string());
     }
     Case::Arith { base, sub, unit, n } => {
@@ -599,7 +599,7 @@ fn judge(ctx: &Ctx, case: &Case, lo: &mut Local) {
           }
         },
       };
-      lo.distinct.push(Ctx::hash_of(&(4u8, base, sub, unit, n)));
+      lo.distinct.push(Ctx::hash_of(&(4u8, base, sub, unit, if *unit == 0 && *n <= 100_000 { *n / 64 } else { *n })));
       lo.outcome(label.into());
     }
     Case::Pair { a, b } => {
@@ -651,17 +651,21 @@ fn eval(ctx: &Ctx, case: &Case) {
 
 /// Evaluate a slice of cases in parallel, chunk-local histograms.
 fn run_cases(ctx: &Ctx, part: &str, cases: &[Case]) {
-  for c in cases.iter().step_by((cases.len() / 3).max(1)).take(3) {
-    ctx.sample(part, c);
+  run_items(ctx, part, cases, |c| c.clone());
+}
+/// Same, for compact items from which the case is made on the fly (keeps memory small for the big sweeps).
+fn run_items<T: Sync>(ctx: &Ctx, part: &str, items: &[T], mk: impl Fn(&T) -> Case + Sync) {
+  for c in items.iter().step_by((items.len() / 3).max(1)).take(3) {
+    ctx.sample(part, &mk(c));
   }
-  cases.par_chunks(512).for_each(|chunk| {
+  items.par_chunks(512).for_each(|chunk| {
     let mut lo = Local::default();
     for c in chunk {
-      judge(ctx, c, &mut lo);
+      judge(ctx, &mk(c), &mut lo);
     }
     lo.flush(ctx);
   });
-  let n = cases.len() as u64;
+  let n = items.len() as u64;
   ctx.add_states(n);
   ctx.add_transitions(n);
   ctx.add_traces(n);
@@ -816,7 +820,7 @@ fn subst2(s: &str) -> BTreeSet<String> {
 }
 
 fn generate(ctx: &Ctx) {
-  ctx.rule("complete products: (a) date-time x separator x offset x fraction strings on 5 parsing entry points; (b) all 1-edit (thorough: 2-edit) neighbours of seed strings; (c) from_unix on complete second windows + all month/day boundaries; (d) checked_add/sub base x unit x count table; (e) all ordered pairs of boundary values x 5 constructors. distinct_nontrivial = distinct (date-time, separator, offset sign+hour, outcome) of grid cases other than rejected invalid fields + distinct raw strings other than rejected non-RFC-3339 + distinct unix seconds + distinct arithmetic cases + distinct ordered pairs");
+  ctx.rule("complete products: (a) date-time x separator x offset x fraction strings on 5 parsing entry points; (b) all 1-edit (thorough: 2-edit) neighbours of seed strings; (c) from_unix on complete second windows + all month/day boundaries; (d) checked_add/sub base x unit x count table; (e) all ordered pairs of boundary values x 5 constructors. distinct_nontrivial = distinct (date-time, separator, offset sign+hour, outcome) of grid cases other than rejected invalid fields + distinct raw strings other than rejected non-RFC-3339 + distinct (UTC day, outcome) of the from_unix seconds + distinct arithmetic cases (the seconds(0..=100000) sweep counted per 64-second bucket) + distinct ordered pairs");
   ctx.assume("serde_json string quoting is trusted for building the deserialisation inputs; the calendar of the `time` crate is NOT trusted (reference = table of year starts built from the Gregorian leap rule)");
   // self-test of the reference calendar on the two constants documented on from_unix and two anchors
   ctx.require(civil_to_unix(0, 1, 1, 0, 0, 0) == MIN, "reference calendar: 0000-01-01T00:00:00Z != -62167219200");
@@ -903,7 +907,7 @@ fn generate(ctx: &Ctx) {
 
   // ---- (c) from_unix
   let w = ctx.by_tier(2_000i64, 100_000);
-  let mut secs: BTreeSet<i64> = BTreeSet::new();
+  let mut secs: Vec<i64> = Vec::new();
   for centre in [MIN, MAX, 0, 951_868_800, i32::MAX as i64, i32::MIN as i64, u32::MAX as i64] {
     secs.extend(centre - w..=centre + w);
   }
@@ -920,8 +924,10 @@ fn generate(ctx: &Ctx) {
       }
     }
   }
-  let unix: Vec<Case> = secs.into_iter().map(|secs| Case::Unix { secs }).collect();
-  run_cases(ctx, "from_unix", &unix);
+  secs.sort_unstable();
+  secs.dedup();
+  let unix = secs;
+  run_items(ctx, "from_unix", &unix, |s| Case::Unix { secs: *s });
   ctx.part("from_unix", json!({"cases": unix.len(), "window_around_ends_and_epoch": w, "boundaries": ctx.by_tier("every month start of years 0000..9999, +-1 s", "every day start of years 0000..9999, +-1 s")}));
 
   // ---- (d) arithmetic
@@ -929,7 +935,7 @@ fn generate(ctx: &Ctx) {
     MIN, MIN + 1, MIN + 59, MIN + 60, MIN + 3599, MIN + 3600, MIN + 86_399, MIN + 86_400, MIN + 604_800, -86_400, -1, 0, 1, 951_782_400, 1_483_228_799, 1_700_000_000,
     MAX - 604_800, MAX - 86_400, MAX - 86_399, MAX - 3600, MAX - 3599, MAX - 60, MAX - 59, MAX - 1, MAX,
   ];
-  let mut arith = Vec::new();
+  let mut arith: Vec<(i64, bool, u8, u32)> = Vec::new();
   for &base in &bases {
     for sub in [false, true] {
       for unit in 0..5u8 {
@@ -946,12 +952,12 @@ fn generate(ctx: &Ctx) {
           ns.extend(0..=100_000u32);
         }
         for n in ns {
-          arith.push(Case::Arith { base, sub, unit, n });
+          arith.push((base, sub, unit, n));
         }
       }
     }
   }
-  run_cases(ctx, "checked_add/checked_sub", &arith);
+  run_items(ctx, "checked_add/checked_sub", &arith, |&(base, sub, unit, n)| Case::Arith { base, sub, unit, n });
   ctx.part("checked_add/checked_sub", json!({"cases": arith.len(), "bases": bases.len(), "units": UNIT_NAME}));
 
   // ---- (e) ordering
